@@ -459,6 +459,9 @@ def run_ext(ctx):
             raise tlc.MachineryError('ZkMirror.tla (%s) violates its own invariant %s' % (name, res['violated']))
         out['model_runs'].append(dict(name='zk2fs ' + name, generated=res['generated'], distinct=res['distinct'],
                                       depth=res['depth'], complete=res['ok'],
+                                      invariants=['InvNoExtra', 'InvFresh', 'InvBacked', 'InvArmed', 'InvOneNote']
+                                      + (['InvCompleteNoData'] if name == 'nd' else []),
+                                      action_properties=['HealsOnChildRun'],
                                       actions={a: c[0] for a, c in res['coverage'].items()
                                                if a in ('Create', 'Set', 'Delete', 'Deliver', 'Stop', 'Start')}))
     gap = tlc.mc(SPEC_DIR, 'ZkMirror', 'MC_ZkMirror_gap.cfg', workers=4, coverage=False, heap='2g', timeout=120)
